@@ -15,7 +15,11 @@
 (*      x, y flat C-order arrays of Gaussian rationals, c Gaussian rational *)
 (*  "range"   geometry of a constructed ResizingOperator:                   *)
 (*      [lo, hi, dom, ran, given, offs, ranlo, ranhi, ranshape, rancell,    *)
-(*       axes]   (given[a] = -1: no offset was supplied for axis a)         *)
+(*       axes, dbdry, rbdry, rannode0, invok]                               *)
+(*      given[a] = -1: no offset was supplied for axis a; dbdry / rbdry:    *)
+(*      per-axis <<L, R>> nodes-on-boundary flags (0 | 1) of the domain and *)
+(*      those requested for the range; rannode0: first grid node of the     *)
+(*      range; invok = 1: .inverse was constructed and leads back           *)
 (*  "adjid"   adjoint identity in the weighted inner products:              *)
 (*      [wd, wr, x, y, rx, rty, ipran, ipdom]  (ipran = <R x, y>_ran and    *)
 (*      ipdom = <x, R* y>_dom as returned by the real .inner)               *)
@@ -57,17 +61,25 @@ RangeClauses(e) ==
   LET d == Len(e.dom)
       ax(a) ==
         LET m == e.dom[a]  n == e.ran[a]  o == e.offs[a]
-            h == CellSide(e.lo[a], e.hi[a], m)
+            dL == e.dbdry[a][1]  dR == e.dbdry[a][2]  rL == e.rbdry[a][1]  rR == e.rbdry[a][2]
+            h == CellSideB(e.lo[a], e.hi[a], m, dL, dR)
         IN  (IF e.ranshape[a] # n THEN {<<"range-shape", a>>} ELSE {})
+            \* "unchanged cell sizes"
             \cup (IF e.rancell[a] # h THEN {<<"cell-side", a>>} ELSE {})
             \cup (IF m = n THEN (IF o # 0 THEN {<<"offset", a>>} ELSE {})
                   ELSE IF e.given[a] >= 0 THEN (IF o # e.given[a] THEN {<<"offset", a>>} ELSE {})
                   ELSE (IF ~DefaultOffsetOK(m, n, o) THEN {<<"default-offset", a>>} ELSE {}))
-            \cup (IF ValidOffset(m, n, o) /\ (e.ranlo[a] # RangeLo(e.lo[a], e.hi[a], m, n, o)
-                                              \/ e.ranhi[a] # RangeHi(e.lo[a], e.hi[a], m, n, o))
+            \* "the range covers the enlarged physical domain": limits for the requested nodes-on-boundary flags
+            \cup (IF ValidOffset(m, n, o) /\ (e.ranlo[a] # RangeLoB(e.lo[a], e.hi[a], m, n, o, dL, dR, rL)
+                                              \/ e.ranhi[a] # RangeHiB(e.lo[a], e.hi[a], m, n, o, dL, dR, rR))
                     THEN {<<(IF n >= m THEN "range-domain" ELSE "range-domain-shrink"), a>>} ELSE {})
+            \* the copied block sits at the same physical grid points in domain and range
+            \cup (IF ValidOffset(m, n, o) /\ e.rannode0[a] # RangeNode0B(e.lo[a], e.hi[a], m, n, o, dL, dR)
+                    THEN {<<"grid-aligned", a>>} ELSE {})
             \cup (IF (a - 1 \in {e.axes[j] : j \in 1..Len(e.axes)}) # (m # n) THEN {<<"axes", a>>} ELSE {})
   IN  UNION {ax(a) : a \in 1..d}
+      \* .inverse can be constructed and maps the range back to the domain with the same offsets
+      \cup (IF e.invok # 1 THEN {<<"inverse-constructible", 0>>} ELSE {})
 
 Dot(w, u, v) == CScal(w, CSumSeq([i \in 1..Len(u) |-> CMul(u[i], CConj(v[i]))]))
 AdjIdClauses(e) ==
